@@ -21,6 +21,7 @@ SUNMatrix SUNSparseMatrix(sunindextype, sunindextype, sunindextype, int, SUNCont
 void SUNMatDestroy(SUNMatrix); int SUNMatZero(SUNMatrix);
 realtype *SHIM_SM_ELEMENT_D(SUNMatrix, sunindextype, sunindextype);
 #define SM_ELEMENT_D(A,i,j) (*SHIM_SM_ELEMENT_D(A,i,j))
+#define CSC_MAT 0
 #define CSR_MAT 1
 sunindextype *SUNSparseMatrix_IndexPointers(SUNMatrix); sunindextype *SUNSparseMatrix_IndexValues(SUNMatrix); realtype *SUNSparseMatrix_Data(SUNMatrix);
 SUNLinearSolver SUNLinSol_Dense(N_Vector, SUNMatrix, SUNContext);
